@@ -53,7 +53,11 @@ Inductive expr :=
 | ENew (c : string) (args : list (option string * expr)).      (* C(..) for a class of the table *)
 
 Inductive stmt :=
-| SSkip                                   (* pass, docstring, warnings.warn(...) *)
+| SSkip                                   (* pass, docstring *)
+| SWarn (site : string)                   (* warnings.warn(...): a POTENTIAL RAISE POINT -- whether the warning
+                                             issued at this site is turned into an exception depends on the
+                                             warning filter in force (python -W error, simplefilter("error"),
+                                             pytest filterwarnings=error); the interpreter ASKS *)
 | SSetCls (a : string) (e : expr)         (* cls.a = e / self.__class__.a = e : own slot of the dynamic class *)
 | SSetSelf (a : string) (e : expr)
 | SSetLocal (x : string) (e : expr)
@@ -75,9 +79,18 @@ Definition table := list class_entry.
 Inductive var := XArg (p : string) | XCell (t : bool) (c a : string).
    (* XCell false c a: what `c.a` evaluated to when the block was entered (constructor time);
       XCell true  c a: what it evaluates to when __exit__ runs. *)
+
 Inductive pred := PAbsent | PNone | PEq (k : const).
 Inductive sval := VK (k : const) | VSym (x : var) | VNot (v : sval)
                 | VObj (c : string) (fs : list (string * sval)).
+
+(* The warning filter is global state too.  It is kept in the store under the pseudo-class [WARN] (no class
+   of a table has a dotless name): the slot [WARN].site holds [KBool true] iff the filter currently in force
+   turns the warning issued at the statement [site] into an exception.  A [SWarn site] therefore asks the
+   yes/no question "is XCell t WARN site equal to True" like any other question about an input of the
+   block: the checker ([explore]) answers it both ways, the concrete semantics from the store. *)
+Definition WARN : string := "warnings".
+Definition warn_raises (site : string) (t : bool) : var * pred := (XCell t WARN site, PEq (KBool true)).
 
 Definition var_eqb (x y : var) : bool :=
   match x, y with
@@ -384,6 +397,10 @@ with exec (n : nat) (cx : ctx) (fr : frame) (ss : list stmt) {struct n} : res (f
           do r <- eval n cx fr e; let '(v, s', W) := r in
           Ok ({| f_loc := f_loc fr; f_self := s'; f_W := W |}, Some v)
       | SRaise _ => Exc (f_W fr)
+      | SWarn site =>
+          let '(x, p) := warn_raises site (cx_t cx) in
+          do esc <- ask (cx_facts cx) x p;
+          if esc then Exc (f_W fr) else continue fr
       end
   end end.
 
@@ -496,13 +513,24 @@ Definition QFUEL : nat := 40.
 Definition args_valid (c : string) (args : list (string * sval)) : bool :=
   forallb (fun kv => mem_str (fst kv) (ctor_params c)) args.
 
+(* the warning filter as part of the store: every warning is / no warning is turned into an exception *)
+Definition escalate (b : bool) (G : store) : store :=
+  fun c a => if String.eqb c WARN then Some (VK (KBool b)) else G c a.
+(* leaving `with warnings.catch_warnings():` puts the filter found on entry (G) back *)
+Definition unescalate (G G2 : store) : store :=
+  fun c a => if String.eqb c WARN then G c a else G2 c a.
+
 Inductive prog := PSkip | PSeq (p q : prog) | PWith (c : string) (args : list (string * sval)) (body : prog)
-                | PRaise | PObserve.
+                | PRaise | PObserve
+                | PEsc (b : bool) (body : prog)     (* with warnings.catch_warnings():
+                                                          warnings.simplefilter("error" if b else "ignore"); body *)
+                | PTry (body : prog).               (* try: body   except Exception: pass *)
 Inductive outcome := ONormal | ORaised | OStuck.
 
 (* Python `with C(args): body` : constructor; __enter__; body; __exit__ on normal and exceptional exit;
    the exception is re-raised unless __exit__ returns a true value; a failing constructor or __enter__
-   runs no __exit__.  The trace collects the store at every PObserve. *)
+   runs no __exit__ (Python does not call __exit__ when the with-statement header raises -- whatever the
+   header has written by then stays written).  The trace collects the store at every PObserve. *)
 Fixpoint run (p : prog) (G : store) : store * outcome * list store :=
   match p with
   | PSkip => (G, ONormal, [])
@@ -532,7 +560,15 @@ Fixpoint run (p : prog) (G : store) : store * outcome * list store :=
           end
       | _ => (G, OStuck, [])
       end
+  | PEsc b body => let '(G2, o, tr) := run body (escalate b G) in (unescalate G G2, o, tr)
+  | PTry body => let '(G1, o, tr) := run body G in
+                 (G1, match o with ORaised => ONormal | _ => o end, tr)
   end.
+
+(* does the header of `with c(args):` complete (constructor and __enter__ both return) at store G? *)
+Definition enters (c : string) (args : list (string * sval)) (G : store) : bool :=
+  args_valid c args &&
+  match fst (conc QFUEL (holds args G G) (fun fs => symA fs c) []) with Ok (AEntered _ _) => true | _ => false end.
 
 (* what Setting.m(args) returns at store G *)
 Definition observe (G : store) (c m : string) (args : list const) : sval :=
